@@ -161,6 +161,10 @@ func (i *IPFIX) run() {
 		ipfixUDPCh <- IPFIXUDPMsg{raddr, b[:n]}
 	}
 
+	// only the sender closes the channel: a datagram read just before
+	// the stop must still be handed over, not hit a closed channel
+	close(ipfixUDPCh)
+
 }
 
 func (i *IPFIX) shutdown() {
@@ -179,9 +183,8 @@ func (i *IPFIX) shutdown() {
 		logger.Println("couldn't not dump template", err)
 	}
 
-	// logging and close UDP channel
+	// logging, the UDP channel is closed by run() once it left its read loop
 	logger.Println("ipfix has been shutdown")
-	close(ipfixUDPCh)
 }
 
 func (i *IPFIX) ipfixWorker(wQuit chan struct{}) {
